@@ -298,9 +298,9 @@ impl Matrix {
 
     fn prep_for(&mut self, kind: Kind, salt: usize) -> Prep {
         let cands: &[Prep] = match kind {
-            Kind::A => &[Prep::Fresh, Prep::Heap, Prep::Spare, Prep::Shrunk, Prep::Pushed, Prep::Reserved, Prep::Popped, Prep::Conv(Kind::D), Prep::Masked],
-            Kind::D => &[Prep::Fresh, Prep::Spare, Prep::Shrunk, Prep::Reserved, Prep::Pushed, Prep::Popped, Prep::Conv(Kind::F64x4), Prep::Masked],
-            _ => &[Prep::Fresh, Prep::Shrunk, Prep::Pushed, Prep::Popped, Prep::Conv(Kind::D), Prep::Masked, Prep::Conv(Kind::F8x3)],
+            Kind::A => &[Prep::Fresh, Prep::Heap, Prep::Spare, Prep::Shrunk, Prep::Pushed, Prep::Reserved, Prep::Popped, Prep::Conv(Kind::D), Prep::Masked, Prep::Summed],
+            Kind::D => &[Prep::Fresh, Prep::Spare, Prep::Shrunk, Prep::Reserved, Prep::Pushed, Prep::Popped, Prep::Conv(Kind::F64x4), Prep::Masked, Prep::Summed],
+            _ => &[Prep::Fresh, Prep::Shrunk, Prep::Pushed, Prep::Popped, Prep::Conv(Kind::D), Prep::Masked, Prep::Conv(Kind::F8x3), Prep::Summed],
         };
         cands[(self.rot / 3 + salt) % cands.len()]
     }
